@@ -30,6 +30,7 @@ type TxSpec struct {
 	Split  []int `json:"split,omitempty"` // per-mille of the input total per output (rest: change to From)
 	Fee    int64 `json:"fee,omitempty"`   // sela
 	Amt    int   `json:"amt,omitempty"`   // 0 conserve; 1 four outputs of 2^62; 2 one output 2^63-1 + one small; 3 a negative output; 4 outputs exceed inputs by 1 sela; 5 a zero-value output added; 6 two outputs of 2^62; 7 fee one below minimum
+	Wd     *WdSpec `json:"wd,omitempty"` // a side-chain withdrawal instead of a transfer (withdraw.go)
 	force  []outpoint // harness-internal: spend exactly these outpoints
 	Sign   int   `json:"sign,omitempty"`  // 0 owner signs; 1 another key signs with its own code; 2 content altered after signing; 3 no program; 4 another actor's code with owner's signature; 5 valid signature of a different transaction
 }
@@ -67,6 +68,9 @@ func mod(i, n int) int {
 // makeTx builds and signs a transfer according to spec on the given view.
 // Returns nil when the view offers nothing to build it from.
 func (s *sim) makeTx(v *view, spec TxSpec) *txInfo {
+	if spec.Wd != nil {
+		return s.makeWithdraw(v, spec)
+	}
 	from := s.actors[mod(spec.From, len(s.actors))]
 	own := v.utxosOf(from.idx)
 	// honest wallets spend mature outputs; InKind 8 is the Byzantine client
